@@ -48,9 +48,10 @@ class Translate(Domain):
         original_points = self.domain.sample_random_uniform(
             n=n, d=d, params=params, device=device
         ).as_tensor
-        n = int(len(original_points) / (len(params) + 1))
-        _, params = self._repeat_params(n + 1, params)  # round up n
-        translate_values = self.translate_fn(params).squeeze(-1)
+        # every parameter row got the same number of points, in row-major order
+        n = len(original_points) // max(len(params), 1)
+        _, params = self._repeat_params(n, params)
+        translate_values = self.translate_fn(params).reshape(-1, self.space.dim)
         translated_points = original_points + translate_values
         return Points(translated_points, self.space)
 
@@ -71,7 +72,7 @@ class Translate(Domain):
             n, n_params = len(points), max(len(params), 1)
             _, params = self._repeat_params(n, params)
             points = points.repeat(n_params, 1)
-        translate_values = self.translate_fn(params).squeeze(-1)
+        translate_values = self.translate_fn(params).reshape(-1, self.space.dim)
         points += translate_values
         return points
 
